@@ -566,7 +566,7 @@ func shimSlug(s string) string {
 			b.WriteByte('-')
 			dash = true
 		}
-		if b.Len() > 48 {
+		if b.Len() > 70 {
 			break
 		}
 	}
